@@ -691,7 +691,7 @@ func safeCall(fn func(context.Context) error, ctx context.Context) (err error, s
 
 func cases(tier string, seed int64) []fw.Case {
 	var cs []fw.Case
-	n, blocks := 24, 320
+	n, blocks := 64, 340
 	if tier == "thorough" {
 		n, blocks = 256, 640
 	}
